@@ -149,6 +149,19 @@ def w_transitions(idx):
                     flags = (":recursive" if t["op"]["args"][1] else ":single") if t["op"]["name"] == "delete" else (":delete" if t["op"]["args"][3] else ":keep")
                     out.append((f"{t['op']['name']}{flags}:registry-depends-on-stored-parent-pointers", f"expected registry {sorted(t['to']['store'])} got {got}",
                                 {"kind": "history", "ops": ops, "expected_to": t["to"], "variant": "all parent pointers set to None before the last call"}))
+        if not results and i % 3 == 0 and not any(o["name"] == "import" for o, _ in access[canon(t["from"], FIELDS)]) and t["op"]["name"] != "import":
+            # once more with ids the caller chose - unique, but unusual: empty, zero, blank, look-alikes of None
+            w3 = World()
+            w3.explicit_ids = ["", 0, "0", " ", "None", -1, "null", 0.5]
+            okp = True
+            for o, tk in access[canon(t["from"], FIELDS)]:
+                okp = okp and apply_op(w3, o)[0]
+            if okp and canon(w3.pi(FIELDS), FIELDS) == canon(t["from"], FIELDS):
+                for clause, det, exc in step(w3, t["op"], t["to"]):
+                    out.append((f"{t['op']['name']}:{clause}:caller-chosen-ids", det, {"kind": "history", "ops": ops, "expected_to": t["to"], "variant": "explicit ids '', 0, '0', ' ', 'None', -1, 'null', 0.5"}))
+            elif okp:
+                out.append((f"{t['op']['name']}:history-diverges:caller-chosen-ids", f"after the access history the state is {jdump(w3.pi(FIELDS))}, the model says {jdump(t['from'])}",
+                            {"kind": "history", "ops": ops[:-1], "variant": "explicit ids '', 0, '0', ' ', 'None', -1, 'null', 0.5"}))
         if not results:
             for clause, det in id_only_observer(w):
                 out.append((f"{t['op']['name']}:{clause}", det, {"kind": "history", "ops": ops, "expected_to": t["to"], "observer": "keeps ids only"}))
